@@ -316,10 +316,11 @@ def adc(img, gain, saturation_capacity=None, warn_saturate=False, dtype=None):
         raise ValueError
 
     # Prepare a cube of electron counts to apply the polynomial gain to
+    # (powers by repeated multiplication: np.power is not correctly rounded on
+    # every platform and floor() would turn a last-bit error into a whole DN)
     img_cube = np.repeat(img[np.newaxis, :, :], model_order, axis=0)
-    for order in np.arange(model_order, 1, -1):
-        d = model_order - order
-        img_cube[d] = img_cube[d]**order
+    for d in range(model_order - 2, -1, -1):
+        img_cube[d] = img_cube[d + 1] * img
 
     # Apply the gain model and convert to DN
     if gain.ndim == 1:
